@@ -78,6 +78,7 @@ func c20Case(rt *rapid.T, rec *vt.Rec) {
 	var loopStart time.Time
 	loopUpdates := 0     // loop keep-alives seen since loopStart
 	pendingWait := false // a value sits in the wait channel
+	uncollected := 0     // runs that were stopped and whose outcome nobody has waited for yet
 	var hist, kinds []string
 	classes := map[string]bool{}
 	logf := func(f string, x ...interface{}) {
@@ -106,6 +107,9 @@ func c20Case(rt *rapid.T, rec *vt.Rec) {
 			early = nil
 			sp.take() // (the calls of this clean-up run are not part of the history)
 		}
+		for ; uncollected > 0; uncollected-- {
+			a.Wait()
+		}
 		if running {
 			a.Stop()
 			running = false
@@ -116,7 +120,27 @@ func c20Case(rt *rapid.T, rec *vt.Rec) {
 			pendingWait = false
 		}
 	}
-	fail := func(f string, x ...interface{}) {
+	var fail func(f string, x ...interface{})
+	// collect waits for the outcome of every run that ended by Stop and has not been waited for: each Wait returns nil
+	collect := func(label string) {
+		for uncollected > 0 {
+			done := make(chan error, 1)
+			go func() { done <- a.Wait() }()
+			synctest.Wait()
+			select {
+			case err := <-done:
+				if err != nil {
+					fail("%s: Wait for a run that was stopped returned %v, want nil", label, err)
+				}
+			default:
+				n := uncollected
+				uncollected = 0
+				fail("%s: %d run(s) were started and stopped and not yet waited for; Wait does not return for one of them", label, n)
+			}
+			uncollected--
+		}
+	}
+	fail = func(f string, x ...interface{}) {
 		msg := fmt.Sprintf(f, x...)
 		full := fmt.Sprintf("%s\ninterval=%s (effective %s)\nhistory:\n  %s", msg, interval, effective, strings.Join(hist, "\n  "))
 		// The message must survive even if loops are left behind (a bubble that cannot end reports a deadlock instead).
@@ -187,11 +211,86 @@ func c20Case(rt *rapid.T, rec *vt.Rec) {
 	}
 	n := rapid.IntRange(3, 14).Draw(rt, "steps")
 	for k := 0; k < n; k++ {
-		op := rapid.SampledFrom([]string{"start", "start", "doubleStart", "stop", "advance", "advance", "advance", "force", "startFailConnect", "startFailUpdate", "failNextKeepalive", "reconfigure", "earlyWait"}).Draw(rt, "op")
+		op := rapid.SampledFrom([]string{"start", "start", "doubleStart", "stop", "advance", "advance", "advance", "force", "startFailConnect", "startFailUpdate", "failNextKeepalive", "reconfigure", "earlyWait", "stopLater", "collect", "stopDuringKeepalive"}).Draw(rt, "op")
 		switch op {
+		case "stopLater":
+			// the owner stops the agent and looks at the outcome only later (possibly after starting it again)
+			if !running || early != nil || uncollected >= 2 {
+				continue
+			}
+			a.Stop()
+			synctest.Wait()
+			account("stop (outcome not collected yet)", 0, 0)
+			expectTicks("stop (outcome not collected yet)")
+			running = false
+			uncollected++
+			mu.Lock()
+			failUpdateAt = -1
+			mu.Unlock()
+			logf("stop; nobody waits yet (%d outcome(s) uncollected)", uncollected)
+			classes["stop-collect-later"] = true
+			if uncollected == 2 {
+				classes["two-outcomes-uncollected"] = true
+			}
+		case "collect":
+			if uncollected == 0 {
+				continue
+			}
+			n := uncollected
+			collect("collect")
+			logf("Wait x%d -> nil", n)
+		case "stopDuringKeepalive":
+			// Stop arrives while the loop is inside a keep-alive that the pool is slow to answer
+			mu.Lock()
+			scripted := failUpdateAt > 0
+			mu.Unlock()
+			if !running || latencyDiv == 0 || early != nil || scripted {
+				continue
+			}
+			lat := effective/time.Duration(latencyDiv) - time.Millisecond
+			next := loopStart.Add(time.Duration(loopUpdates+1) * effective)
+			if d := time.Until(next); d > 0 {
+				time.Sleep(d)
+			}
+			synctest.Wait()
+			mu.Lock()
+			busy := inFlight > 0
+			mu.Unlock()
+			if !busy {
+				account("tick", 0, 0)
+				continue
+			}
+			collect("before stop")
+			stopDone := make(chan struct{})
+			go func() { a.Stop(); close(stopDone) }()
+			done := make(chan error, 1)
+			go func() { done <- a.Wait() }()
+			time.Sleep(lat + time.Millisecond)
+			synctest.Wait()
+			select {
+			case <-stopDone:
+			default:
+				fail("Stop was called while a keep-alive was in flight (pool latency %s); the pool has answered, Stop still has not returned", lat)
+			}
+			select {
+			case err := <-done:
+				if err != nil {
+					fail("Wait returned %v after Stop, want nil", err)
+				}
+			default:
+				fail("Stop (called while a keep-alive was in flight, pool latency %s) has returned, but Wait does not: the loop was not stopped", lat)
+			}
+			account("stop during a keep-alive", 0, 0)
+			expectTicks("stop during a keep-alive")
+			running = false
+			logf("stop while a keep-alive was in flight (pool latency %s); Wait returned nil", lat)
+			classes["stop-during-keepalive"] = true
+			if lat > 10*time.Second {
+				classes["stop-during-keepalive:slower-than-10s"] = true
+			}
 		case "earlyWait":
 			// somebody waits for the agent before it is (re)started: that Wait returns when the next run ends
-			if running || pendingWait || early != nil {
+			if running || pendingWait || early != nil || uncollected > 0 {
 				continue
 			}
 			early = make(chan error, 1)
@@ -372,6 +471,7 @@ func c20Case(rt *rapid.T, rec *vt.Rec) {
 				mu.Unlock()
 				if failedNow {
 					// the scripted keep-alive failure happened: the loop must have ended with that error
+					collect("before the failed run's outcome")
 					done := make(chan error, 1)
 					go func() { done <- a.Wait() }()
 					synctest.Wait()
